@@ -8,6 +8,7 @@ import CspuzModel.Proofs.C06L1
 import CspuzModel.Proofs.C04Prim
 import CspuzModel.Proofs.C06Line
 namespace Cspuz.Proofs.C06Prim
+set_option linter.unnecessarySeqFocus false
 open Cspuz Cspuz.Spec Cspuz.Proofs
 open Cspuz.Proofs.C06L1 (degE degreeOf_eq eval_degE pa)
 open Cspuz.Proofs.C04Prim (eval_avcNode avcSem_iff)
@@ -268,5 +269,202 @@ theorem any_tv_iff {ie : List Expr} {base : Nat} {σ σ' : Asg} (hie : BoolArgs 
     unfold tv
     rw [eval_boolArg hie hag hj, ht]
     rfl
+
+/-! ### primitive path -/
+
+theorem eval_or2 {σ : Asg} {a b : Expr} {x y : Bool}
+    (ha : eval σ a = some (.b x)) (hb : eval σ b = some (.b y)) :
+    eval σ (.node .or [a, b]) = some (.b (x || y)) := by
+  simp [ha, hb, evalOp, allBools]
+
+def pathCs (g : Graph) (ie : List Expr) (base i : Nat) : List Expr :=
+  [.node .imp [.bvar (base + i),
+      .node .or [.node .eq [degE g ie i, .litI 1], .node .eq [degE g ie i, .litI 2]]],
+   .node .imp [.node .not [.bvar (base + i)], .node .eq [degE g ie i, .litI 0]]]
+
+def pathEnd (g : Graph) (ie : List Expr) (i : Nat) : Expr := .node .eq [degE g ie i, .litI 1]
+
+def pathPer (g : Graph) (ie : List Expr) (base : Nat) : List (List Expr × Expr) :=
+  (List.range g.n).map fun i => (pathCs g ie base i, pathEnd g ie i)
+
+def pathCount (g : Graph) (ie : List Expr) (base : Nat) (anyE : Expr) : Expr :=
+  .node .eq [countTrueE ((pathPer g ie base).map (·.2)), .node .ite [anyE, .litI 2, .litI 0]]
+
+def pathProg (g : Graph) (ie : List Expr) (base : Nat) (anyE : Expr) : Prog :=
+  { decls := List.replicate g.n .bool,
+    cs := (pathPer g ie base).flatMap (·.1) ++ [pathCount g ie base anyE] ++ [lineNode g ie] }
+
+section Path
+variable {g : Graph} {ie : List Expr} {base : Nat} {σ σ' : Asg}
+
+theorem path_eq_prog (hwf : g.wf = true) (hlen : ie.length = g.edges.length)
+    (hie : BoolArgs base ie) :
+    ∃ anyE, singlePath g ie true base = .ok (pathProg g ie base anyE, bvars base g.n) ∧
+      ∀ σ σ' : Asg, AgreeBelow base σ σ' →
+        eval σ' anyE = some (.b (ie.any (tv σ'))) := by
+  obtain ⟨anyE, hany, hev⟩ := foldOr_spec (xs := ie) (fun x hx => wtB_isBoolLike x (hie x hx).1)
+  refine ⟨anyE, ?_, ?_⟩
+  · unfold singlePath
+    simp only [if_true]
+    rw [mapM_eq_ok_map (g := fun i => (pathCs g ie base i, pathEnd g ie i)), ok_bind]
+    · rw [countTrue_ok_of_boolLike (by
+        intro x hx
+        simp only [List.map_map, List.mem_map] at hx
+        obtain ⟨_, _, rfl⟩ := hx
+        rfl), ok_bind, hany, ok_bind, avc_line_eq hlen, ok_bind]
+      rfl
+    · intro i _
+      rw [degreeOf_eq hwf hlen hie i, ok_bind]
+      rfl
+  · intro σ σ' hag
+    apply hev
+    intro x hx
+    obtain ⟨b, hb⟩ := wtB_eval σ x (hie x hx).1
+    exact ⟨b, by rw [← eval_congr_of_varsBelow hag x (hie x hx).2]; exact hb⟩
+
+theorem sat_pathCs (hwf : g.wf = true) (hlen : ie.length = g.edges.length)
+    (hie : BoolArgs base ie) (hag : AgreeBelow base σ σ') (i : Nat) :
+    (∀ c ∈ pathCs g ie base i, eval σ' c = some (.b true)) ↔
+      (pa σ' base i = true → activeDegree g (truthAt σ ie) i = 1 ∨
+        activeDegree g (truthAt σ ie) i = 2) ∧
+      (pa σ' base i = false → activeDegree g (truthAt σ ie) i = 0) := by
+  have hd := eval_degE hwf hlen hie hag i
+  have h1 := eval_thenRaw (eval_bvar σ' (base + i))
+    (eval_or2 (eval_cmp (op := .eq) rfl hd (eval_litI σ' 1)) (eval_cmp (op := .eq) rfl hd (eval_litI σ' 2)))
+  have h2 := eval_thenRaw (eval_not (eval_bvar σ' (base + i)))
+    (eval_cmp (op := .eq) rfl hd (eval_litI σ' 0))
+  unfold thenRaw at h1 h2
+  unfold pathCs
+  simp only [List.mem_cons, List.not_mem_nil, or_false, forall_eq_or_imp, forall_eq]
+  rw [h1, h2]
+  unfold pa
+  cases σ'.b (base + i) <;> simp <;> omega
+
+theorem eval_pathCount_ct (hwf : g.wf = true) (hlen : ie.length = g.edges.length)
+    (hie : BoolArgs base ie) (hag : AgreeBelow base σ σ') :
+    eval σ' (countTrueE ((pathPer g ie base).map (·.2))) =
+      some (.i (((List.range g.n).filter
+        fun v => activeDegree g (truthAt σ ie) v == 1).length : Nat)) := by
+  rw [eval_countTrueE ((List.range g.n).map fun v => activeDegree g (truthAt σ ie) v == 1)]
+  · congr 3
+    rw [List.count_eq_countP, List.countP_map, List.countP_eq_length_filter]
+    congr 1; apply List.filter_congr; intro x _; simp
+  · unfold pathPer
+    rw [List.map_map, List.map_map, List.map_map]
+    apply List.map_congr_left
+    intro i _
+    simp only [Function.comp, pathEnd]
+    rw [eval_cmp (op := .eq) rfl (eval_degE hwf hlen hie hag i) (eval_litI σ' 1)]
+    simp
+
+theorem sat_pathCount (hwf : g.wf = true) (hlen : ie.length = g.edges.length)
+    (hie : BoolArgs base ie) (hag : AgreeBelow base σ σ') {anyE : Expr}
+    (hany : eval σ' anyE = some (.b (ie.any (tv σ')))) :
+    eval σ' (pathCount g ie base anyE) = some (.b true) ↔
+      ((List.range g.n).filter fun v => activeDegree g (truthAt σ ie) v == 1).length =
+        if ie.any (tv σ') then 2 else 0 := by
+  unfold pathCount
+  rw [eval_cmp (op := .eq) rfl (eval_pathCount_ct hwf hlen hie hag)
+    (eval_ite hany (eval_litI σ' 2) (eval_litI σ' 0))]
+  cases ie.any (tv σ') <;> simp <;> omega
+
+theorem satFrag_pathProg_iff (hwf : g.wf = true) (hlen : ie.length = g.edges.length)
+    (hie : BoolArgs base ie) (hag : AgreeBelow base σ σ') {anyE : Expr}
+    (hany : eval σ' anyE = some (.b (ie.any (tv σ')))) :
+    SatFrag base (pathProg g ie base anyE) σ' ↔
+      (∀ i, i < g.n →
+        (pa σ' base i = true → activeDegree g (truthAt σ ie) i = 1 ∨
+          activeDegree g (truthAt σ ie) i = 2) ∧
+        (pa σ' base i = false → activeDegree g (truthAt σ ie) i = 0)) ∧
+      (((List.range g.n).filter fun v => activeDegree g (truthAt σ ie) v == 1).length =
+        if ie.any (tv σ') then 2 else 0) ∧
+      Conn g (truthAt σ ie) := by
+  unfold SatFrag pathProg
+  simp only
+  rw [and_iff_right (sat_bool_decls g.n fun k => σ'.i (base + k))]
+  simp only [List.mem_append, List.mem_flatMap, pathPer, List.mem_map, List.mem_range,
+    List.mem_singleton]
+  constructor
+  · intro h
+    refine ⟨fun i hi => ?_, ?_, ?_⟩
+    · rw [← sat_pathCs hwf hlen hie hag i]
+      intro c hc
+      exact h c (.inl (.inl ⟨_, ⟨i, hi, rfl⟩, hc⟩))
+    · rw [← sat_pathCount hwf hlen hie hag hany]
+      exact h _ (.inl (.inr rfl))
+    · rw [← sat_lineNode hwf hlen hie hag]
+      exact h _ (.inr rfl)
+  · rintro ⟨h1, h2, h3⟩ c ((⟨_, ⟨i, hi, rfl⟩, hc⟩ | rfl) | rfl)
+    · exact (sat_pathCs hwf hlen hie hag i).2 (h1 i hi) c hc
+    · exact (sat_pathCount hwf hlen hie hag hany).2 h2
+    · exact (sat_lineNode hwf hlen hie hag).2 h3
+
+theorem path_realizable_iff (σ : Asg) (hwf : g.wf = true) (hlen : ie.length = g.edges.length)
+    (hie : BoolArgs base ie) {anyE : Expr}
+    (hany : ∀ σ σ' : Asg, AgreeBelow base σ σ' → eval σ' anyE = some (.b (ie.any (tv σ')))) :
+    Realizable base (pathProg g ie base anyE) σ ↔ PathRegular g (truthAt σ ie) := by
+  constructor
+  · rintro ⟨σ', hag, hs⟩
+    obtain ⟨hd, hct, hc⟩ := (satFrag_pathProg_iff hwf hlen hie hag (hany σ σ' hag)).1 hs
+    by_cases hex : ie.any (tv σ') = true
+    · right
+      rw [hex] at hct
+      refine ⟨fun v hv => ?_, hct, hc⟩
+      have := hd v hv
+      cases hp : pa σ' base v <;> rw [hp] at this <;> simp at this <;> omega
+    · left
+      intro e he
+      by_contra hact
+      exact hex ((any_tv_iff hie hag).2 ⟨e, by omega, by simpa using hact⟩)
+  · intro h
+    refine ⟨extendB σ base (fun v => decide (0 < activeDegree g (truthAt σ ie) v)),
+      extendB_agree _ _ _, ?_⟩
+    have hag := extendB_agree σ base (fun v => decide (0 < activeDegree g (truthAt σ ie) v))
+    rw [satFrag_pathProg_iff hwf hlen hie hag (hany σ _ hag)]
+    rcases h with h | ⟨hd, hct, hc⟩
+    · have h0 := deg_zero_of_no_active h
+      refine ⟨fun i _ => ?_, ?_, ?_⟩
+      · rw [pa_extendB]; simp [h0 i]
+      · have hany' : ie.any (tv (extendB σ base fun v =>
+            decide (0 < activeDegree g (truthAt σ ie) v))) = false := by
+          rw [Bool.eq_false_iff]
+          intro ht
+          obtain ⟨e, he, hact⟩ := (any_tv_iff hie hag).1 ht
+          rw [h e (by omega)] at hact
+          cases hact
+        rw [hany']
+        simp [h0]
+      · intro u v hu _
+        rw [h0 u.1] at hu
+        cases hu
+    · refine ⟨fun i hi => ?_, ?_, hc⟩
+      · rw [pa_extendB]
+        have := hd i hi
+        simp only [decide_eq_true_eq, decide_eq_false_iff_not]
+        omega
+      · have hany' : ie.any (tv (extendB σ base fun v =>
+            decide (0 < activeDegree g (truthAt σ ie) v))) = true := by
+          rw [any_tv_iff hie hag]
+          have hpos : 0 < ((List.range g.n).filter
+              fun v => activeDegree g (truthAt σ ie) v == 1).length := by omega
+          obtain ⟨v, hv⟩ := List.exists_mem_of_length_pos hpos
+          simp only [List.mem_filter, beq_iff_eq] at hv
+          obtain ⟨j, e, hj, hact⟩ := activeDegree_pos_iff.1 (show 0 < activeDegree g (truthAt σ ie) v by omega)
+          exact ⟨e, by have := joins_edge_lt hj; omega, hact⟩
+        rw [hany', hct]
+        rfl
+
+theorem path_passed_exact (hwf : g.wf = true) (hlen : ie.length = g.edges.length)
+    (hie : BoolArgs base ie) (hag : AgreeBelow base σ σ') {anyE : Expr}
+    (hany : eval σ' anyE = some (.b (ie.any (tv σ'))))
+    (hs : SatFrag base (pathProg g ie base anyE) σ') :
+    ∀ i, i < g.n → σ'.b (base + i) = visited g (truthAt σ ie) i := by
+  intro i hi
+  have h := ((satFrag_pathProg_iff hwf hlen hie hag hany).1 hs).1 i hi
+  unfold visited
+  unfold pa at h
+  cases hb : σ'.b (base + i) <;> rw [hb] at h <;> simp at h ⊢ <;> omega
+
+end Path
 
 end Cspuz.Proofs.C06Prim
